@@ -174,6 +174,7 @@ type Ticker struct {
 	real    *time.Ticker
 	quit    chan struct{}
 	stopped bool
+	gen     int
 }
 
 func NewTicker(d Duration) *Ticker {
@@ -196,19 +197,45 @@ func NewTicker(d Duration) *Ticker {
 		}()
 		return t
 	}
+	t.run(d)
+	return t
+}
+
+// run starts the delivery thread of the current generation (Reset starts a new one; the old one
+// gives up at its next step).
+func (t *Ticker) run(d Duration) {
+	my := t.gen
 	start := clock()
 	core.GoDaemon(func() {
 		for k := int64(1); ; k++ {
 			at := start + k*int64(d)
 			// the tick is delivered when the scheduler runs this thread and the buffer has room
 			// (a slow ticker is indistinguishable from dropped ticks for code that reads the time
-			// from the tick); Stop releases the thread
-			if !t.C.SendWith(epoch.Add(Duration(at)), func() bool { return t.stopped }, func() { advance(at) }) {
+			// from the tick); Stop / Reset release the thread
+			if !t.C.SendWith(epoch.Add(Duration(at)), func() bool { return t.stopped || t.gen != my }, func() { advance(at) }) {
 				return
 			}
 		}
 	})
-	return t
+}
+
+// Reset stops the ticker and restarts it with the period d (also after Stop).
+func (t *Ticker) Reset(d Duration) {
+	if d <= 0 {
+		panic("non-positive interval for Ticker.Reset")
+	}
+	if !core.Controlled {
+		t.real.Reset(d)
+		return
+	}
+	core.Point(core.KStore, unsafe.Pointer(t), nil)
+	if core.Exiting() {
+		return
+	}
+	t.gen++
+	t.stopped = false
+	core.Done(core.KStore, unsafe.Pointer(t), 3)
+	t.run(d)
 }
 
 func (t *Ticker) Stop() {
